@@ -117,6 +117,9 @@ func c15One(text, fam string) (*core.Viol, bool, int) {
 	src := []byte(text)
 	rf := parseText(src, false)
 	if !rf.clean() {
+		if corpusMustAccept[fam] {
+			return &core.Viol{Class: "valid-program-rejected", Detail: fmt.Sprintf("%v %s", rf.errs, rf.panic), Case: core.BytesCase(fam, "whole", src), FindText: trunc(text, 200)}, true, 0
+		}
 		return nil, false, 0
 	}
 	mk := func(class, detail string, cs core.Case) *core.Viol {
@@ -284,29 +287,8 @@ func runC15(c *core.Ctx) {
 	opt := corpusOptFor(c)
 	opt.mutations = 0 // byte mutations of the examples add nothing here: complete accepted programs only
 	var prefixes int64
-	_, bounds := forEachCorpusText(c, opt, func(fam, text string) bool {
-		var isCase bool
-		var n int
-		cs := core.BytesCase(fam, "whole", []byte(text))
-		c.Current(cs)
-		v := c.Run(func() *core.Viol {
-			vv, ic, k := c15One(text, fam)
-			isCase, n = ic, k
-			return vv
-		})
-		prefixes += int64(n)
-		out := "not-a-case"
-		if isCase {
-			out = "same-tree"
-		}
-		if v != nil {
-			out = v.Class
-		}
-		c.CountNT(fam+": "+trunc(text, 120), out, isCase)
-		return true
-	})
-	c.Note("open_prefixes_checked", prefixes)
-	bounds = append(bounds, "for each accepted text: line-mode tree == file-mode tree, and every cut at a token boundary inside an unclosed ( [ { or right after a binary operator, and every cut inside a string or block comment, must request continuation without error")
+	var bounds []string
+	// (the script family runs first: it is the cheaper one and must not be starved by the corpus when time is short)
 	// scripts
 	if !c.Expired() {
 		depth := 3
@@ -321,6 +303,14 @@ func runC15(c *core.Ctx) {
 			if len(idx) == 4 {
 				for _, x := range idx {
 					if x >= 24 {
+						return true
+					}
+				}
+			}
+			if len(idx) == 3 && c.Quick() {
+				// quick tier: triples over the first 28 statements and the 10 added ones (macros, comments, multi-line)
+				for _, x := range idx {
+					if x >= 28 && x < len(alpha)-10 {
 						return true
 					}
 				}
@@ -355,8 +345,32 @@ func runC15(c *core.Ctx) {
 			c.P.Traces++
 			return true
 		})
-		bounds = append(bounds, fmt.Sprintf("scripts: every sequence of 2..%d statements of a %d-statement alphabet (incl. macro definition/use, multi-line statements, comments) that runs without error, every split into consecutive chunks fed through repl.EvalOne in line mode on one state (accumulating while continuation is requested): printed output and final SaveGlobals text equal the whole-script run", depth, len(alpha)))
+		bounds = append(bounds, fmt.Sprintf("scripts: every sequence of 2..%d statements (quick: triples over 38 of them) of a %d-statement alphabet (incl. macro definition/use, multi-line statements, comments) that runs without error, every split into consecutive chunks fed through repl.EvalOne in line mode on one state (accumulating while continuation is requested): printed output and final SaveGlobals text equal the whole-script run", depth, len(alpha)))
 	}
+	_, cb := forEachCorpusText(c, opt, func(fam, text string) bool {
+		var isCase bool
+		var n int
+		cs := core.BytesCase(fam, "whole", []byte(text))
+		c.Current(cs)
+		v := c.Run(func() *core.Viol {
+			vv, ic, k := c15One(text, fam)
+			isCase, n = ic, k
+			return vv
+		})
+		prefixes += int64(n)
+		out := "not-a-case"
+		if isCase {
+			out = "same-tree"
+		}
+		if v != nil {
+			out = v.Class
+		}
+		c.CountNT(fam+": "+trunc(text, 120), out, isCase)
+		return true
+	})
+	c.Note("open_prefixes_checked", prefixes)
+	bounds = append(bounds, cb...)
+	bounds = append(bounds, "for each accepted text: line-mode tree == file-mode tree, and every cut at a token boundary inside an unclosed ( [ { or right after a binary operator, and every cut inside a string or block comment, must request continuation without error")
 	c.P.Bound = strings.Join(bounds, "; ")
 }
 
